@@ -1,5 +1,6 @@
 from __future__ import annotations
 
+import math
 import random
 import re
 import time
@@ -124,10 +125,12 @@ def wait_timestamp(params: ParametersT | None = None) -> int | None:
     if params is None or params.delay is None:
         return None
 
+    # the consumer compares with whole seconds (`unix_time`): round up, so that
+    # a message is never found before its time has come
     if params.delay.next_execution_time is not None:
-        return int(params.delay.next_execution_time.timestamp())
+        return math.ceil(params.delay.next_execution_time.timestamp())
 
     if (computed := params.compute_next_execution_time) is not None:
-        return int(computed.timestamp())
+        return math.ceil(computed.timestamp())
 
     return None
